@@ -24,11 +24,15 @@ const ENTITY_REACTORS_WARNING_SIZE: usize = 50;
 /// normal systems that don't trigger other reactions.
 pub fn schedule_removal_and_despawn_reactors(world: &mut World)
 {
+    #[cfg(cobweb_verif)]
+    crate::verif::emit(crate::verif::Event::PollStart);
     world.resource_scope(|world: &mut World, mut cache: Mut<ReactCache>| {
         cache.schedule_removal_reactions(world);
         cache.schedule_despawn_reactions(world);
     });
     world.flush();
+    #[cfg(cobweb_verif)]
+    crate::verif::emit(crate::verif::Event::PollEnd);
 }
 
 //-------------------------------------------------------------------------------------------------------------------
@@ -85,6 +89,25 @@ impl EntityReactors
     pub(crate) fn count(&self, rtype: EntityReactionType) -> usize
     {
         self.iter_rtype(rtype).count()
+    }
+
+    #[cfg(cobweb_verif)]
+    pub(crate) fn verif_entries(&self, entity: Entity, out: &mut Vec<crate::verif::TableEntry>)
+    {
+        for (rtype, handle) in self.reactors.iter()
+        {
+            let (kind, ty) = match *rtype
+            {
+                EntityReactionType::Insertion(id) => ("eins", id),
+                EntityReactionType::Mutation(id)  => ("emut", id),
+                EntityReactionType::Removal(id)   => ("erem", id),
+                EntityReactionType::Event(id)     => ("eev", id),
+            };
+            out.push(crate::verif::TableEntry{
+                kind, ty: Some(ty), ent: Some(entity), sys: *handle.sys_command(),
+                rc: matches!(handle, ReactorHandle::AutoDespawn(_)),
+            });
+        }
     }
 
     pub(crate) fn iter_reactors(&self) -> impl Iterator<Item = SystemCommand> + '_
